@@ -127,7 +127,7 @@ PROPS["C18"] = {
     "level_note": "Partial: the real timer, scheduler and Go memory model are not modelled (the model's atomic steps are the critical sections delimited by the mutex and the atomics); trace validation is sampling.",
     "technique": "Lean 4 proof (invariant over all interleavings) + trace validation against the real meter",
     "modules": ["GitSizer.Props.C18"],
-    "engines": [{"name": "meter", "quick": 480, "thorough": 24000, "per_shard": 30}],
+    "engines": [{"name": "meter", "quick": 480, "thorough": 24000, "per_shard": 30}, {"name": "rw", "quick": 96, "thorough": 4800, "per_shard": 6}],
     "rule": "scripts of 1-4 phases with 0-40 Inc() calls, ticker periods 1us/10us/100us/1ms/3ms, random spins and sleeps between calls; non-trivial = at least one tick line was observed besides the final lines.",
     "assumptions": ["each critical section of meter.go is atomic (sync.Mutex) and count is updated atomically"],
 }
@@ -141,6 +141,44 @@ PROPS["C08"] = {
     "engines": [{"name": "e2e", "quick": 320, "thorough": 16000, "per_shard": 20}, {"name": "graph", "quick": 3000, "thorough": 200000, "per_shard": 1500}],
     "rule": _E2E_RULE,
     "assumptions": ["git rev-parse is the reference for what a description denotes"],
+}
+
+PROPS["C10"] = {
+    "level": "proof",
+    "level_text": "Theorems on the protocol model of a run: exit 0 iff no git invocation failed; a failing run writes no report and an error message; exit 0 carries the complete report; `config --get` exit 1 = absent. Regenerated Wait()/close-site table checked by decide. Fault enumeration on the real binary: a fault-injecting git first on PATH (9 invocation kinds x truncation at any fraction of the output, with/without line alignment x exit statuses x SIGKILL x failure after full output), each object removed in turn, 20 s hang timeout; every observation is judged against the model's prediction (all-or-nothing).",
+    "level_note": "Partial: goroutine liveness / hang-freedom and OS pipe behaviour are not modelled (per-run timeouts only). A subprocess that truncates its output but exits 0 is outside the property (indistinguishable from a smaller repository) and is not judged. Invalid options / ROOTs are covered by the opts engine (C14).",
+    "technique": "Lean 4 proof on a protocol model + fault enumeration against the real binary",
+    "modules": ["GitSizer.Props.C10"],
+    "engines": [{"name": "fault", "quick": 480, "thorough": 24000, "per_shard": 30}, {"name": "opts", "quick": 160, "thorough": 8000, "per_shard": 10}],
+    "rule": "generated real repositories x selections x one fault per run (target invocation, delivered permille, line alignment, exit status, kill) or one removed object; non-trivial = the targeted invocation actually ran and the fault is a failure in the sense of the property (trivial: target never invoked, lying truncation, unreachable/built-in object removed).",
+    "assumptions": ["a git subprocess signals failure through its exit status or a signal"],
+}
+PROPS["C13"] = {
+    "level_text": "Theorems over the REGENERATED call-site table: every git command except the one discovery call goes through GitCommand; GitCommand puts --no-replace-objects first and sets GIT_DIR=<discovered> and GIT_GRAFT_FILE=/dev/null; the shallow marker is looked up through the pinned repository. Exploration on the real binary: identical report (byte-for-byte) from work-tree top, subdirectory, GIT_DIR from outside, `git -C dir sizer`, a bare copy and a linked worktree; with replace refs (commits/trees/blobs) and graft lines planted the numbers equal the specification on the STORED objects; shallow marker => refused with empty stdout.",
+    "level_note": "Partial: git's own repository discovery is outside the model; equality across addressing modes is checked on generated repositories only.",
+    "technique": "Lean 4 proof over regenerated tables (decide) + end-to-end exploration",
+    "modules": ["GitSizer.Props.C13"],
+    "engines": [{"name": "addr", "quick": 160, "thorough": 8000, "per_shard": 10}],
+    "rule": "generated real repositories with work tree; half carry replace refs and graft lines, one in eight a shallow marker; 5-6 addressing modes per case; non-trivial = every case.",
+    "assumptions": ["git honours --no-replace-objects and GIT_GRAFT_FILE"],
+}
+PROPS["C14"] = {
+    "level_text": "Theorems: regenerated guard table (each sizer.* key is read only if none of exactly the family's flags was given) and flag table (--verbose=0, --no-verbose=1, --critical=30); in the option model the last threshold-family option wins after any valid prefix, gitconfig is irrelevant once an option of the family is present and has exactly the effect of --threshold otherwise; deprecated spellings registered with the documented kinds. Real binary: pairs of invocations the property declares equivalent must produce byte-identical stdout (spellings, last-wins sequences, config-vs-option, option-overrides-invalid-config); an invalid setting in effect must fail with empty stdout.",
+    "level_note": "Trusted: pflag's in-order Set calls (exercised through the real binary, modelled as a fold). The model covers the threshold family in full; names/json-version/progress families are covered by the guard-table theorem and the engine.",
+    "technique": "Lean 4 proof (fold induction, regenerated tables) + differential equivalence testing on the real binary",
+    "modules": ["GitSizer.Props.C14"],
+    "engines": [{"name": "opts", "quick": 320, "thorough": 16000, "per_shard": 20}],
+    "rule": "12 rule families (equivalent spellings, sequences of 2-4 threshold options vs their last, -j/--json, --include-regexp vs /R/, --refgroup vs @G, sizer.threshold/names/jsonVersion vs options, option overriding valid/invalid config, invalid settings in effect) on a repository whose metrics straddle the reference values; non-trivial = every case.",
+    "assumptions": [],
+}
+PROPS["C17"] = {
+    "level_text": "Theorems over the REGENERATED call-site table: only read-only plumbing (rev-parse, config --list/--get, for-each-ref, rev-list, cat-file) is ever run, no other process is spawned, the only file-creating call is the hidden --cpuprofile; census totals are permutation-invariant. Exploration on the real binary: three runs per repository (GOMAXPROCS 1/16/4, --progress and --no-progress; table, JSON v1, JSON v2) with byte-identical stdout; SHA-1 of the entire repository directory (objects, refs, config, work tree, modes) identical before and after; thorough tier uses a -race build and fails on any race report.",
+    "level_note": "Partial: data-race freedom and schedule-independence of the real goroutines cannot be expressed in the model; they are sampled (race detector in the thorough tier).",
+    "technique": "Lean 4 proof over regenerated tables (decide) + repeated-run exploration with directory hashing",
+    "modules": ["GitSizer.Props.C17"],
+    "engines": [{"name": "rw", "quick": 160, "thorough": 8000, "per_shard": 10}],
+    "rule": "generated real repositories with a work tree x selections x output formats; non-trivial = every case.",
+    "assumptions": ["git's read-only plumbing does not write to the repository"],
 }
 
 NOT_APPLICABLE = {p: "check under construction in this commit; see DESIGN.md §8 for the planned machinery" for p in
